@@ -517,15 +517,20 @@ func (e *Effects) freshContents(loc Root, user *ssa.Function) RootSet {
 // externalAlias lists out-of-repo callees whose pointer-like result aliases
 // an argument (index) instead of being freshly allocated.
 var externalAlias = map[string]int{
-	"(*bytes.Buffer).Bytes":            0,
-	"(*bytes.Buffer).Next":             0,
-	"bytes.TrimSpace":                  0,
-	"bytes.Trim":                       0,
-	"bytes.TrimLeft":                   0,
-	"bytes.TrimRight":                  0,
-	"bytes.TrimPrefix":                 0,
-	"bytes.TrimSuffix":                 0,
-	"(*math/big.Int).Bits":             0,
+	"(*bytes.Buffer).Bytes":                       0,
+	"(*bytes.Buffer).Next":                        0,
+	"bytes.TrimSpace":                             0,
+	"bytes.Trim":                                  0,
+	"bytes.TrimLeft":                              0,
+	"bytes.TrimRight":                             0,
+	"bytes.TrimPrefix":                            0,
+	"bytes.TrimSuffix":                            0,
+	"(*math/big.Int).Bits":                        0,
+	"(encoding/binary.littleEndian).AppendUint16": 1, "(encoding/binary.littleEndian).AppendUint32": 1, "(encoding/binary.littleEndian).AppendUint64": 1,
+	"(encoding/binary.bigEndian).AppendUint16": 1, "(encoding/binary.bigEndian).AppendUint32": 1, "(encoding/binary.bigEndian).AppendUint64": 1,
+	"encoding/binary.AppendUvarint": 0, "encoding/binary.AppendVarint": 0, "encoding/hex.AppendEncode": 0, "encoding/hex.AppendDecode": 0,
+	"strconv.AppendInt": 0, "strconv.AppendUint": 0, "fmt.Append": 0, "fmt.Appendf": 0, "(*math/big.Int).Append": 1,
+	"slices.Compact": 0, "slices.CompactFunc": 0, "slices.Delete": 0, "slices.DeleteFunc": 0, "slices.Insert": 0, "slices.Clip": 0, "slices.Grow": 0,
 	"(*container/list.List).Front":     0,
 	"(*container/list.List).Back":      0,
 	"(*container/list.Element).Next":   0,
@@ -717,12 +722,21 @@ var externalWriters = map[string][]int{
 	"(encoding/binary.bigEndian).PutUint32":    {1},
 	"(encoding/binary.bigEndian).PutUint64":    {1},
 	"encoding/binary.Read":                     {2},
-	"encoding/hex.Decode":                      {0},
-	"encoding/hex.Encode":                      {0},
-	"io.ReadFull":                              {1},
-	"io.ReadAtLeast":                           {1},
-	"crypto/rand.Read":                         {0},
-	"(*math/big.Int).FillBytes":                {1},
+	// append-style helpers write into the spare capacity of their first slice argument and return it
+	"(encoding/binary.littleEndian).AppendUint16": {1}, "(encoding/binary.littleEndian).AppendUint32": {1}, "(encoding/binary.littleEndian).AppendUint64": {1},
+	"(encoding/binary.bigEndian).AppendUint16": {1}, "(encoding/binary.bigEndian).AppendUint32": {1}, "(encoding/binary.bigEndian).AppendUint64": {1},
+	"encoding/binary.AppendUvarint": {0}, "encoding/binary.AppendVarint": {0}, "encoding/binary.Append": {0},
+	"encoding/hex.AppendEncode": {0}, "encoding/hex.AppendDecode": {0},
+	"strconv.AppendInt": {0}, "strconv.AppendUint": {0}, "strconv.AppendQuote": {0}, "strconv.AppendBool": {0}, "strconv.AppendFloat": {0},
+	"fmt.Append": {0}, "fmt.Appendf": {0}, "fmt.Appendln": {0},
+	"(*math/big.Int).Append": {1}, "unicode/utf8.AppendRune": {0},
+	"slices.Compact": {0}, "slices.CompactFunc": {0}, "slices.Delete": {0}, "slices.DeleteFunc": {0}, "slices.Insert": {0}, "slices.Reverse": {0}, "slices.Sort": {0}, "slices.SortFunc": {0}, "slices.SortStableFunc": {0}, "slices.Replace": {0},
+	"encoding/hex.Decode":       {0},
+	"encoding/hex.Encode":       {0},
+	"io.ReadFull":               {1},
+	"io.ReadAtLeast":            {1},
+	"crypto/rand.Read":          {0},
+	"(*math/big.Int).FillBytes": {1},
 	// math/big: methods that set their receiver (z = …); QuoRem/DivMod also set their last argument
 	"(*math/big.Int).Set": {0}, "(*math/big.Int).SetInt64": {0}, "(*math/big.Int).SetUint64": {0}, "(*math/big.Int).SetBytes": {0},
 	"(*math/big.Int).SetString": {0}, "(*math/big.Int).SetBit": {0}, "(*math/big.Int).SetBits": {0}, "(*math/big.Int).Add": {0},
